@@ -249,11 +249,22 @@ def select_by_metadata(ds, fmt: str):
             flt = (lambda si, code=code: md_code(si.custom_metadata) == code)
             # … alone, and combined with the other selection options set to values that select nothing away (a per-metadata
             # limit / a shard count as large as the split): the predicate must keep deciding
+            class Recording:
+                """a predicate object that also records what it accepted; its length (0 before the first use) makes it falsy"""
+                def __init__(self, code): self.code, self.seen = code, []
+                def __call__(self, si):
+                    ok = md_code(si.custom_metadata) == self.code
+                    if ok: self.seen.append(1)
+                    return ok
+                def __len__(self): return len(self.seen)
             variants = [(i, {}) for i in ifaces] + [(i + "+limit", {"custom_metadata_type_limit": nsh}) for i in ("sync", "concurrent", "tf")] \
-                + [(i + "+shards", {"shards": nsh}) for i in ("sync", "concurrent")]
+                + [(i + "+shards", {"shards": nsh}) for i in ("sync", "concurrent")] + [(i + "+object", {"shard_filter": "RECORDING"}) for i in ("sync", "concurrent")]
             for iface_name, extra in variants:
                 iface = iface_name.split("+")[0]
-                kw = dict(split=name, repeat=False, shuffle=0, shard_filter=flt, **extra)
+                kw = dict(split=name, repeat=False, shuffle=0, shard_filter=flt)
+                kw.update(extra)
+                if kw["shard_filter"] == "RECORDING":
+                    kw["shard_filter"] = Recording(code)
                 try:
                     if iface == "sync": got = [sp.ident(e) for e in ds.as_numpy_iterator(**kw)]
                     elif iface == "concurrent": got = [sp.ident(e) for e in ds.as_numpy_iterator_concurrent(file_parallelism=2, **kw)]
